@@ -41,22 +41,7 @@ def run(ctx):
                            users=("u1", "u2") if i % 4 else ("u1",))
         scenarios.append(af.with_frontends(sc, i) if i % 2 == 0 else sc)
     results, events = af.run_scenarios(ctx, scenarios, "c11")
-    for r in results:
-        if r["hung"]:
-            ctx.violation("C10", "wedge:" + r["where"].replace(" ", "-"), "scenario %s hung" % r["name"])
-    nval = 0
-    for mode, mname in MODES:
-        evs = []
-        for r, sc in zip(results, scenarios):
-            if sc["mode"] == mode and not r["hung"]:
-                evs += events[r["first"]:r["last"]]
-                nval += 1
-        if not evs:
-            continue
-        ok, tres = af.validate(ctx, evs, mname, "c11-" + mname)
-        if ok is False:
-            prop, key, detail = af.classify_rejection(evs, tres, "C11")
-            ctx.violation(prop, key, detail)
+    nval = af.judge(ctx, scenarios, results, events, "c11", "C11")
     cov["traces_validated_against_impl"] = nval
     cov["evaluations"] = len(events)
     cov["distinct_nontrivial"] = len({json.dumps({k: e.get(k) for k in ("ev", "c", "k", "u", "p", "a", "ok")}) for e in events})
